@@ -216,6 +216,9 @@ def _merge(ctx, res):
         raise common.HarnessError(res["error"])
     for (stream, ep, outcome), k in res["counts"].items():
         ctx.count(stream, outcome, k)
+        if stream == "spell.accepted-vs-refused":
+            ctx.__dict__.setdefault("_c19_avr", {})[ep] = ctx.__dict__.setdefault("_c19_avr", {}).get(ep, 0) + k
+            continue
         if outcome == "undriven":
             ctx.hist.setdefault("undriven_entry_points", {})[ep] = 1
         else:
@@ -431,6 +434,10 @@ def run(ctx):
         ctx.note(f"oracle: {len(lost)} task(s) lost with a killed worker (the rest of their batch was not driven): {lost}")
     ctx.note(f"oracle: {len(tasks)} tasks in {time.time() - t0:.1f} s wall; cpu seconds per group: "
              + ", ".join(f"{g}={s:.0f}" for g, s in sorted(per_group_secs.items())))
+    avr = ctx.__dict__.get("_c19_avr", {})
+    ctx.note("spellings: entry points that accept one spelling of a content and refuse another with a library exception "
+             f"(statistic, not a finding: a str is text, bytes are exact): {len(avr)}: "
+             + ", ".join(f"{e.replace('btclib.', '')}×{n}" for e, n in sorted(avr.items())[:40]))
     driven = ctx.hist.get("calls_per_entry_point", {})
     undriven = sorted(e for e in eps if e not in driven)
     ctx.note(f"entry points driven: {len([e for e in eps if e in driven])} of {len(eps)}; never driven (a required parameter "
